@@ -499,7 +499,7 @@ pub fn one_apart() -> Vec<(&'static str, Vec<(String, RonR)>)> {
     vary!("permutation_ils", [2, 2, 2], |p| ils::permutation_ils::<TspP>(ils::PermutationProblemParameters { ls_params: ls::PermutationProblemParameters { num_neighbors: p[0] as u32, num_swap: p[1] as u32 }, ls_condition: LessThanN::iterations(p[2] as u32) }, c()));
     vary!("real_rw", [0.125], |p| rw::real_rw::<RealP>(rw::RealProblemParameters { deviation: p[0] }, c()));
     vary!("permutation_random_walk", [2], |p| rw::permutation_random_walk::<TspP>(rw::PermutationProblemParameters { num_swap: p[0] as u32 }, c()));
-    vary!("real_iwo", [2, 5, 1, 3, 0.125, 0.75, 2], |p| iwo::real_iwo::<RealP>(iwo::RealProblemParameters { initial_population_size: p[0] as u32, max_population_size: p[1] as u32, min_number_of_seeds: p[2] as u32, max_number_of_seeds: p[3] as u32, initial_deviation: p[4], final_deviation: p[5], modulation_index: p[6] as u32 }, c()));
+    vary!("real_iwo", [2, 5, 1, 3, 0.75, 0.125, 2], |p| iwo::real_iwo::<RealP>(iwo::RealProblemParameters { initial_population_size: p[0] as u32, max_population_size: p[1] as u32, min_number_of_seeds: p[2] as u32, max_number_of_seeds: p[3] as u32, initial_deviation: p[4], final_deviation: p[5], modulation_index: p[6] as u32 }, c()));
     vary!("real_fa", [3, 0.5, 0.875, 0.125, 0.75], |p| fa::real_fa::<RealP>(fa::RealProblemParameters { pop_size: p[0] as u32, alpha: p[1], beta: p[2], gamma: p[3], delta: p[4] }, c()));
     vary!("real_bh", [3], |p| bh::real_bh::<RealP>(bh::RealProblemParameters { num_particles: p[0] as u32 }, c()));
     vary!("real_cro", [3, 0.5, 0.125, 2, 0.75, 1.0, 2.0, 0.375, 0.625], |p| cro::real_cro::<RealP>(cro::RealProblemParameters { initial_population_size: p[0] as u32, mole_coll: p[1], kinetic_energy_lr: p[2], alpha: p[3] as u32, beta: p[4], initial_kinetic_energy: p[5], buffer: p[6], on_wall_deviation: p[7], decomposition_deviation: p[8] }, c()));
